@@ -738,24 +738,45 @@ def gen_var_type_raw(rng: random.Random) -> str:
 	return ''.join(rng.choice(['const', ' ', ' ', '*', '&', '<', '>', ':', 'a', 'b_', '1', '\t', ',', 'int', 'std::']) for _ in range(rng.randint(0, 6)))
 
 
+def gen_dict_tree(rng: random.Random, b: str, depth: int, mode: str, name: str = '') -> tuple:
+	"""a dict-like structure: ('b', name, [children]) with children ('e', blank-free text) or nested ('b', name, …)"""
+	children: list[tuple] = []
+	for _ in range(rng.randint(0, 4)):
+		if depth > 0 and rng.random() < 0.3:
+			children.append(gen_dict_tree(rng, b, depth - 1, mode, gen_tight(rng, b, mode) if rng.random() < 0.5 else ''))
+		else:
+			children.append(('e', gen_tight(rng, b, mode)))
+	return ('b', name, children)
+
+
+def dict_written(rng: random.Random, node: tuple, b: str, d: str, gaps: list[str]) -> str:
+	"""the text as written: one of `gaps` behind each delimiter"""
+	if node[0] == 'e':
+		return node[1]
+	parts = [dict_written(rng, c, b, d, gaps) for c in node[2]]
+	text = node[1] + b[0]
+	for j, w in enumerate(parts):
+		text += w + (d + rng.choice(gaps) if j + 1 < len(parts) else '')
+	return text + b[1]
+
+
+def dict_format(node: tuple, b: str, d: str, join_format: str = '{delimiter} ', block_format: str = '{name}{open}{elems}{close}', alt: Any = None) -> str:
+	"""what BlockFormatter.format has to produce, computed on the generated structure (`alt(name, number of elements)` → str | None)"""
+	if node[0] == 'e':
+		return node[1]
+	if alt is not None:
+		r = alt(node[1], len(node[2]))
+		if r:
+			return r
+	elems = join_format.format(delimiter=d).join(dict_format(c, b, d, join_format, block_format, alt) for c in node[2])
+	return block_format.format(name=node[1], open=b[0], close=b[1], elems=elems)
+
+
 def gen_canonical_dict(rng: random.Random, b: str, d: str, depth: int, mode: str, gaps: list[str]) -> tuple[str, str]:
 	"""→ (text as written, canonical text): `b[0] piece d␠ piece … b[1]` with blank-free pieces and nested `name{…}` blocks; the
 	written form puts one of `gaps` behind each delimiter, the canonical form exactly one blank"""
-	written, canon = [], []
-	for _ in range(rng.randint(0, 4)):
-		if depth > 0 and rng.random() < 0.3:
-			name = gen_tight(rng, b, mode) if rng.random() < 0.5 else ''
-			w, c = gen_canonical_dict(rng, b, d, depth - 1, mode, gaps)
-			written.append(name + w)
-			canon.append(name + c)
-		else:
-			t = gen_tight(rng, b, mode)
-			written.append(t)
-			canon.append(t)
-	text = b[0]
-	for j, w in enumerate(written):
-		text += w + (d + rng.choice(gaps) if j + 1 < len(written) else '')
-	return text + b[1], b[0] + (d + ' ').join(canon) + b[1]
+	tree = gen_dict_tree(rng, b, depth, mode)
+	return dict_written(rng, tree, b, d, gaps), dict_format(tree, b, d)
 
 
 def ascii_only(text: str) -> str:
@@ -802,7 +823,7 @@ def search_view(ctx: Ctx) -> SearchResult:
 	B = _bp()
 	rng = ctx.sub_rng('law-view')
 	res = SearchResult('is_quoted_literal = starts and ends with the quote and every inner quote is escaped; Param.var_type_origin([const] base [<…>] [*|&]) = base; '
-		'parse_to_formatter(text).format() = the text with exactly one blank behind every delimiter (dict-like texts with blank-free pieces, structure-side oracle)')
+		'parse_to_formatter(text).format() = the text with exactly one blank behind every delimiter, and with other join/block formats or an alt_formatter the value computed on the generated structure (dict-like texts with blank-free pieces); Param.parse(text).var_type_origin = base')
 	hist: dict[str, int] = {}
 	seen: set[str] = set()
 	notes: list[str] = []
@@ -850,6 +871,16 @@ def search_view(ctx: Ctx) -> SearchResult:
 			got = exc_enum(e)
 		if got != base:
 			res.findings.append(Finding(key='var_type_origin:differs', what=f'Param({vt!r}, …).var_type_origin = {got!r}, the base type is {base!r}', replay={'var_type': vt}))
+		# the whole way: parameter text → Param.parse → var_type → var_type_origin
+		pname = ''.join(rng.choice(IDENT[:7]) for _ in range(rng.randint(1, 4)))
+		ptext = f'{vt} {pname}' + (f" = {render(gen_items(rng, i % 2, 'clean', 2, 0.3)).strip(' ') or '0'}" if i % 2 else '')
+		res.cases += 1
+		try:
+			got = guarded(lambda t=ptext: (lambda p: (p.symbol, p.var_type_origin))(CppViewHelper.Param.parse(t)))
+		except Exception as e:  # noqa: BLE001
+			got = exc_enum(e)
+		if got != (pname, base):
+			res.findings.append(Finding(key='param:origin-differs', what=f'Param.parse({ptext!r}) → (symbol, var_type_origin) = {got!r}, expected {(pname, base)!r}', replay={'parameter': ptext}))
 		b = rng.choice(BRACKETS)
 		d = rng.choice([':', ','])
 		mode = 'clean' if i % 3 else 'dirty'
@@ -866,6 +897,30 @@ def search_view(ctx: Ctx) -> SearchResult:
 			res.findings.append(Finding(key='format:differs', what=f'parse_to_formatter({name + written!r}, {b!r}, {d!r}).format() = {got!r}, expected {name + canon!r}', replay={'text': name + written, 'brackets': b, 'separator': d}))
 		elif len(res.samples) < 2 and len(canon) > 12:
 			res.samples.append({'text': name + written, 'format': got})
+		# the other parameters of format(): join_format / block_format / alt_formatter, expected value computed on the structure
+		tree = gen_dict_tree(rng, b, 1 + i % 3, mode, name)
+		text2 = dict_written(rng, tree, b, d, [' '])
+		jf = rng.choice(['{delimiter} ', '{delimiter}', ' {delimiter} '])
+		bf = rng.choice(['{name}{open}{elems}{close}', '{name}{open} {elems} {close}', '{open}{elems}{close}@{name}'])
+		variant = i % 4
+		if variant == 0:
+			alt_real, alt_spec = None, None
+		elif variant == 1:
+			alt_real, alt_spec = (lambda f: None), None
+		elif variant == 2:
+			alt_real, alt_spec = (lambda f: f'<{f.name}|{len(f.elems)}>' if f.name[-1:] in 'abc019' else None), (lambda nm, n: f'<{nm}|{n}>' if nm[-1:] in 'abc019' else None)
+		else:
+			alt_real, alt_spec = (lambda f: '' if f.name else 'ROOT'), (lambda nm, n: '' if nm else 'ROOT')
+		want_f = dict_format(tree, b, d, jf, bf, alt_spec)
+		res.cases += 1
+		count(f'format variant {variant}')
+		try:
+			got = guarded(lambda: B.parse_to_formatter(text2, b, d).format(jf, bf, alt_real))
+		except Exception as e:  # noqa: BLE001
+			got = exc_enum(e)
+		if got != want_f:
+			res.findings.append(Finding(key='format:variant-differs', what=f'parse_to_formatter({text2!r}, {b!r}, {d!r}).format({jf!r}, {bf!r}, alt variant {variant}) = {got!r}, expected {want_f!r}',
+				replay={'text': text2, 'brackets': b, 'separator': d, 'join_format': jf, 'block_format': bf, 'alt_variant': variant}))
 	res.note = '; '.join(notes)
 	res.distinct = len(seen)
 	res.histogram = hist
@@ -1573,11 +1628,13 @@ STATEMENTS: dict[str, str] = {
 	'sep_join': 'break_separator(d.join(parts)) = [p.strip() for p in parts] for parts that are fragments without top-level d (last one not empty): the law every production caller relies on',
 	'caller_pluck / caller_throw / caller_dict_comp / caller_initializer_call': 'PatternParser.pluck_func_call_arguments, Py2Cpp.on_throw (calls, arguments), on_dict_comp (key, value) return exactly the generated argument texts and is_initializer_call(T(args), T) is true, for arbitrary bracket-balanced arguments (strings may hold any bracket but parentheses for the break_last_block based ones)',
 	'retired_range_split / retired_range_lt_hazard': 'NOT a production site since /repo ed1a7d7 (proc_for_range transpiles the argument nodes): break_separator(pluck_func_call_arguments(callee(a, b)), ",") gives the argument texts for bracket-balanced arguments; a lone "<" in an argument (range(a << 1, n)) is not balanced, swallows the comma and the unpacking raises ValueError - the hazard the fix removed',
-	'query_any': 'DecoratorQuery.any(*paths) = the decorators whose text before the first "(" is in paths, in order; contains(*paths) = whether there is one',
+	'decorator_total': 'DecoratorHelper._parse returns (path, args, join_args) on EVERY text (balanced or not): break_separator never raises for a non-empty delimiter, the two str.index calls that cut a labelled argument always find their target (the first piece is a stripped slice ending in front of a "="), no fuel runs out - so every accessor and query is defined for every decorator text',
+	'query_any': 'DecoratorQuery.any(*paths) = the decorators whose text before the first "(" is in paths, in order; contains(*paths) = whether there is one - for every list of decorator texts (unconditional since decorator_total)',
 	'sep_multichar_spec / sep_multichar_rejoin / callsites_delim_guard': 'for a multi-character delimiter that can not overlap itself (first character does not recur, no bracket/quote character: ", ", ": ", " ="; not " = " or "::"): the exact pieces for every fragment and the rejoin law d.join(segments) = text, pieces = stripped segments; every delimiter literal of the generated call-site table satisfies the guard (decide)',
 	'query_any_args': 'DecoratorQuery.any_args(subject) (production: deco_ignore.any_args(inherit) in class/_inherits.j2) = the decorators whose text between the first "(" and the last character contains subject, in order; for path(args) that text is args',
 	'quoted_literal / quoted_simple_string': 'is_quoted_literal(q + body + q, q) for a one-character quote = every quote character of the body stands behind a backslash (one in the first position never does); the loop never exhausts its fuel; the simple strings of the fragment grammar are quoted literals',
 	'var_type_pattern / var_type_origin_plain / var_type_origin_const': 'Param.var_type_origin of [const ␠+] base [<…>] [*|&] = base for every non-empty base over [A-Za-z0-9_:] and every template-argument text: on the regex branch the GENERATED term of Param.VarType (var_type_pattern ties the proof to it) run by the backtracking matcher - the optional group takes const and all white space / is skipped, group 2 is the longest name run - and on the split("<")[0] branch',
+	'param_origin': 'the whole way for a C++ parameter: Param.parse("[const ]base[<…>][*|&] name = default") gives (type, name, default) and var_type_origin of that type is base - composition of param_unrestricted and var_type_origin_*',
 	'sep_multichar_rejoin_counterexample': 'for a multi-character delimiter the rejoin law is false when occurrences overlap: break_separator("a:::b", "::") = ["a", "", "b"]',
 }
 
@@ -1610,22 +1667,55 @@ def cap_findings(searches: list[SearchResult]) -> None:
 		s.findings = [best[k] for k in sorted(best)]
 
 
+def _tb_tail(e: BaseException) -> str:
+	import traceback
+	frames = traceback.extract_tb(e.__traceback__)[-3:]
+	return ' <- '.join(f'{os.path.basename(f.filename)}:{f.lineno} {f.name}' for f in reversed(frames))
+
+
+def safe_stream(name: str, fn: Any) -> Stream:
+	"""an exception that escapes a stream (something the mutated real code returned could not be formatted) is a disagreement,
+	not a harness crash; tool failures (InfraError) stay what they are"""
+	try:
+		return fn()
+	except common.InfraError:
+		raise
+	except Exception as e:  # noqa: BLE001
+		st = Stream(name, cases=1)
+		st.disagreements.append({'case': 'stream raised', 'op': '-', 'real': f'{exc_enum(e)}: {_tb_tail(e)}', 'model': '-'})
+		return st
+
+
+def safe_search(name: str, fn: Any) -> SearchResult:
+	try:
+		return fn()
+	except common.InfraError:
+		raise
+	except Exception as e:  # noqa: BLE001
+		import traceback
+		res = SearchResult(f'{name} (the oracle raised)', cases=1)
+		res.findings.append(Finding(key=f'search-raised:{name}:{exc_enum(e)}', what=f'{exc_enum(e)} escaped while running the oracle: {_tb_tail(e)}',
+			replay={'traceback': traceback.format_exc()[-3000:]}))
+		return res
+
+
 def run(ctx: Ctx) -> int:
 	with ctx.timed('translate'):
 		translate_ok, translate_msg = translate(ctx)
 	proof = common.prove(ctx, PROP, leanchecker=ctx.thorough)
 	with ctx.timed('correspondence'):
 		streams = [
-			corpus_cases(ctx),
-			stream_fragments(ctx, 'block-clean', 'clean', ctx.scale(6000, 40000)),
-			stream_fragments(ctx, 'block-dirty', 'dirty', ctx.scale(4000, 30000)),
-			stream_fragments(ctx, 'block-malformed', 'malformed', ctx.scale(4000, 30000)),
-			stream_callers(ctx, ctx.scale(3000, 30000)),
-			stream_dictlike(ctx, ctx.scale(3000, 30000)),
-			stream_view(ctx, ctx.scale(3000, 30000)),
+			safe_stream('block-corpus', lambda: corpus_cases(ctx)),
+			safe_stream('block-clean', lambda: stream_fragments(ctx, 'block-clean', 'clean', ctx.scale(6000, 40000))),
+			safe_stream('block-dirty', lambda: stream_fragments(ctx, 'block-dirty', 'dirty', ctx.scale(4000, 30000))),
+			safe_stream('block-malformed', lambda: stream_fragments(ctx, 'block-malformed', 'malformed', ctx.scale(4000, 30000))),
+			safe_stream('block-callers', lambda: stream_callers(ctx, ctx.scale(3000, 30000))),
+			safe_stream('block-dictlike', lambda: stream_dictlike(ctx, ctx.scale(3000, 30000))),
+			safe_stream('block-view', lambda: stream_view(ctx, ctx.scale(3000, 30000))),
 		]
 	with ctx.timed('search'):
-		searches = [search_skip(ctx), search_sep(ctx), search_last(ctx), search_last_general(ctx), search_decorator(ctx), search_param(ctx), search_bracket(ctx), search_pair(ctx), search_callers(ctx), search_query(ctx), search_view(ctx)]
+		searches = [safe_search(fn.__name__, lambda fn=fn: fn(ctx)) for fn in (search_skip, search_sep, search_last, search_last_general, search_decorator,
+			search_param, search_bracket, search_pair, search_callers, search_query, search_view)]
 	cap_findings(searches)
 	return common.finish(ctx, proof, streams, searches,
 		translate_ok=translate_ok, translate_msg=translate_msg,
